@@ -366,7 +366,8 @@ def cbmc_cmd(unit, b, backend, props=None, trace=False):
     cmd = ['cbmc', b, '--json-ui'] + CBMC_CHECKS + BACKENDS[backend] + unit.extra_flags
     if unit.unwind:
         cmd += ['--unwind', str(unit.unwind), '--unwinding-assertions']
-    cmd += ['--object-bits', str(unit.object_bits or 12)]
+    if unit.object_bits:
+        cmd += ['--object-bits', str(unit.object_bits)]
     for p in (props or []):
         cmd += ['--property', p]
     if trace:
@@ -422,6 +423,9 @@ def solve_unit(unit, workdir, seed=0):
         if rc is None:
             return False, dt
         results, msgs = parse_cbmc_json(out)
+        if 'too many addressed objects' in (out or '') and not unit.object_bits:
+            unit.object_bits = 12       # CBMC's default of 8 object bits is too small for this unit: retry once
+            return attempt(backend, plist, timeout)
         for m in msgs:
             if re.search(r'ignoring|no body for|unwinding', m):
                 warnings.append(m)
@@ -450,6 +454,9 @@ def solve_unit(unit, workdir, seed=0):
                 e2 = dict(env)
                 e2['TMPDIR'] = tempfile.mkdtemp(dir=tmpd)
                 rc, out, err, dt = run(cmd, unit.timeout, env=e2)
+                if 'too many addressed objects' in (out or '') and not unit.object_bits:
+                    unit.object_bits = 12
+                    rc, out, err, dt = run(cbmc_cmd(unit, b, be, [p]), unit.timeout, env=e2)
                 shutil.rmtree(e2['TMPDIR'], ignore_errors=True)
                 if rc is None:
                     continue
